@@ -399,6 +399,45 @@ func c14CheckMessage(m *AMsg) string {
 			return fmt.Sprintf("%s re-encoded with a difference:\n in: %q\nout: %q", hKindNames[k], want, got)
 		}
 	}
+	// Entries consumed from one message (the proxy pops its own Via from a
+	// response, its own and the next hop's Route entry from a request) are gone
+	// from that message only: the same text arriving again decodes to the full
+	// lists once more.
+	if len(vias) > 1 || len(routes) > 0 {
+		if msg3, err := ParseMessage(bufio.NewReader(strings.NewReader(string(wire)))); err == nil {
+			msg3.GetVia()
+			msg3.GetRoute()
+			msg3.PopVia()
+			msg3.PopRoute()
+			msg3.PopRoute()
+			msg3.Bytes()
+			msg4, err := ParseMessage(bufio.NewReader(strings.NewReader(string(wire))))
+			if err != nil {
+				return fmt.Sprintf("the same text is not decoded a second time: %v", err)
+			}
+			msg4.GetVia()
+			msg4.GetRoute()
+			out4, _ := msg4.Bytes()
+			r4, err := sipRead(out4)
+			if err != nil {
+				return fmt.Sprintf("second decode of the same text: re-encoded message unreadable: %v", err)
+			}
+			for _, kl := range []struct {
+				kind int
+				want []string
+			}{{hVia, vias}, {hRoute, routes}, {hRR, rrs}} {
+				got := r4.Entries(kl.kind)
+				if len(got) != len(kl.want) {
+					return fmt.Sprintf("%s: after entries were consumed from an earlier message with the same header text, the text decodes to %d entries, want %d: %q", hKindNames[kl.kind], len(got), len(kl.want), got)
+				}
+				for i := range kl.want {
+					if got[i] != kl.want[i] {
+						return fmt.Sprintf("%s entry %d differs after entries were consumed from an earlier message with the same header text:\n in: %q\nout: %q", hKindNames[kl.kind], i, kl.want[i], got[i])
+					}
+				}
+			}
+		}
+	}
 	// the one decoded value the proxy edits in place: received/rport on the top
 	// Via entry - every other entry and parameter must survive the edit
 	if len(vias) > 0 {
